@@ -78,6 +78,13 @@ impl Decoder {
         }
     }
 
+    #[cfg(feature = "verif")]
+    pub fn verif_set_sparse_threshold(&mut self, value: u32) {
+        for block_decoder in self.block_decoders.iter_mut() {
+            block_decoder.verif_set_sparse_threshold(value);
+        }
+    }
+
     pub fn decode(&mut self, packet: EncodingPacket) -> Option<Vec<u8>> {
         let block_number = packet.payload_id.source_block_number() as usize;
         if self.blocks[block_number].is_none() {
@@ -176,6 +183,11 @@ impl SourceBlockDecoder {
         self.sparse_threshold = value;
     }
 
+    #[cfg(feature = "verif")]
+    pub fn verif_set_sparse_threshold(&mut self, value: u32) {
+        self.sparse_threshold = value;
+    }
+
     fn unpack_sub_blocks(&self, result: &mut [u8], symbol: &[u8], symbol_index: usize) {
         let (tl, ts, nl, ns) = partition(
             (self.symbol_size / self.symbol_alignment as u16) as u32,
@@ -222,6 +234,8 @@ impl SourceBlockDecoder {
             p1: calculate_p1(self.source_block_symbols),
         };
         let ss = self.symbol_size as usize;
+        #[cfg(feature = "verif")]
+        crate::verif_events::count(crate::verif_events::DEC_CASE3B_OK);
         let mut rebuilt_buf = vec![0u8; ss];
         for i in 0..self.source_block_symbols as usize {
             if let Some(ref symbol) = self.source_symbols[i] {
@@ -313,11 +327,15 @@ impl SourceBlockDecoder {
 
         // Case 1: the number of received packets is insufficient for decoding
         if self.received_esi.len() < self.source_block_symbols as usize {
+            #[cfg(feature = "verif")]
+            crate::verif_events::count(crate::verif_events::DEC_CASE1_TOO_FEW);
             return None;
         }
 
         // Case 2: we have all source symbols and can return them without decoding
         if self.received_source_symbols == self.source_block_symbols {
+            #[cfg(feature = "verif")]
+            crate::verif_events::count(crate::verif_events::DEC_CASE2_ALL_SOURCE);
             let mut result =
                 vec![0; self.symbol_size as usize * self.source_block_symbols as usize];
             for (i, symbol) in self.source_symbols.iter().enumerate() {
@@ -353,6 +371,8 @@ impl SourceBlockDecoder {
         let num_repair = self.repair_packets.len();
         let ss = self.symbol_size as usize;
         if s + encoded_isis.len() >= l {
+            #[cfg(feature = "verif")]
+            crate::verif_events::count(crate::verif_events::DEC_CASE3A_TRY);
             let total_no_hdpc =
                 s + self.received_source_symbols as usize + num_padding + num_repair;
             let mut d_no_hdpc = SymbolSlab::with_zeros(total_no_hdpc, ss);
@@ -385,6 +405,8 @@ impl SourceBlockDecoder {
                 self.try_pi_decode_no_hdpc(matrix, d_no_hdpc)
             };
             if result.is_some() {
+                #[cfg(feature = "verif")]
+                crate::verif_events::count(crate::verif_events::DEC_CASE3A_OK);
                 return result;
             }
             // Reset decoded flag since the no-HDPC attempt may have set it on a false path
@@ -392,6 +414,8 @@ impl SourceBlockDecoder {
         }
 
         // Case 3b: standard decode with HDPC rows (slab-backed)
+        #[cfg(feature = "verif")]
+        crate::verif_events::count(crate::verif_events::DEC_CASE3B_TRY);
         // See section 5.3.3.4.2. There are S + H zero symbols to start the D vector
         let total = s + h + self.received_source_symbols as usize + num_padding + num_repair;
         let mut d = SymbolSlab::with_zeros(total, ss);
